@@ -1,9 +1,20 @@
 import CJ.Model.Covert
 import CJ.Drv.Util
 /-! Driver for the covert-admission model.
-`covert|<enableAllow>|<providedIsIP>|<split: E or hosthex,porthex>|<domainHits>|<portOk>|<hostIsIP>|<resolved>|<blockHits>|<allowHits>`
-  resolved: `E` (error), `N` (nil address) or `A,<ipNil 0/1>,<zonehex>,<texthex>`; hits: string of 0/1 (`-` = empty)
-→ `<outhex>|<lookup>|<stored covert hex or ->|<dialed hex or ->` -/
+
+**One registration (and optionally a re-sent one), then the dial**
+`covert|<enableAllow>|<providedIsIP>|<split>|<domainHits>|<portOk>|<hostIsIP>|<resolved>|<blockHits>|<allowHits>|<dup>|<dial>|<dnsVisible>`
+* split: `E` or `hosthex,porthex`; hits: string of 0/1 (`-` = empty)
+* resolved: `E` (error), `N` (nil address) or `A,<ipNil 0/1>,<zonehex>,<IP.String() hex>`
+* dup: `-`, or `D`: afterwards a second worker ingests another registration object for the same key
+* dial: `-`, or `O,<hosthex>,<port>,<hostIsIP 0/1>`: what `SplitHostPort` / `ParseIP` say about the string that
+  `Proxy` hands to `net.Dial`
+* dnsVisible: does one resolution of this host cause DNS traffic (the unit in which lookups are counted)
+→ `<outhex>|<lookup>|<lookups>|<stored covert hex or ->|<valid>|<dial: - | L,<hosthex>,<port> | R | B>`
+
+**Several workers for one key, interleaved**
+`csched|<enableAllow>|<schedule: worker digits>|<check order: worker digits>|W|<the 8 per-worker fields>|W|…`
+→ `<stored covert hex or ->|<valid>|<index of the worker whose object is stored or ->` -/
 namespace CJ.Drv.Covert
 open CJ.Covert CJ.Drv
 
@@ -16,41 +27,117 @@ def hexToString (s : String) : Option String := do
 
 def stringToHex (s : String) : String := toHex s.toUTF8.toList
 
-def parseResolved (s : String) : Option (Resolved Unit) :=
+/-- a resolution and the `IP.String()` text of its address -/
+def parseResolved (s : String) (ip : Nat) : Option (Resolved Nat × String) :=
   match s.splitOn "," with
-  | ["E"] => some .err
-  | ["N"] => some .nilAddr
+  | ["E"] => some (.err, "")
+  | ["N"] => some (.nilAddr, "")
   | ["A", n, z, t] => do
     let isNil ← parseBool n
-    some (.addr (if isNil then none else some ()) (← hexToString z) (← hexToString t))
+    some (.addr (if isNil then none else some ip) (← hexToString z), ← hexToString t)
   | _ => none
 
-def handle (args : List String) : Option String :=
-  match args with
-  | [ea, pip, split, dh, pok, hip, res, bh, ah] => do
-    let domainHits ← parseBits dh
-    let blockHits ← parseBits bh
-    let allowHits ← parseBits ah
-    let nb := blockHits.length
-    -- nets: 0..nb-1 = blocklist, nb.. = allowlist; patterns: indexes into domainHits
-    let env : Env Nat Nat Unit := {
-      contains := fun n _ => if n < nb then blockHits.getD n false else allowHits.getD (n - nb) false
-      matchString := fun p _ => domainHits.getD p false }
-    let pol : Policy Nat Nat := {
-      block := List.range nb, allow := (List.range allowHits.length).map (· + nb),
-      enableAllow := ← parseBool ea, domains := List.range domainHits.length }
+/-- the answers about one worker's covert string -/
+structure WorkerIn where
+  ans : Answers
+  domainHits : List Bool
+  blockHits : List Bool
+  allowHits : List Bool
+  res : Resolved Nat
+  text : String
+
+def parseWorker (idx : Nat) : List String → Option WorkerIn
+  | [pip, split, dh, pok, hip, res, bh, ah] => do
     let sp ← (if split == "E" then some none else
       match split.splitOn "," with
       | [h, p] => do some (some (h, ← hexToString p))     -- the host stays opaque (hex text)
       | _ => none)
-    let a : Answers Unit := { providedIsIP := ← parseBool pip, split := sp, portOk := ← parseBool pok,
-                              hostIsIP := ← parseBool hip, resolved := ← parseResolved res }
-    let r := parseOrResolve env pol a
-    let stored := ingestCovert env pol { covert := "<provided>", valid := false } a
-    let (st, dial) := match stored with
-      | none => ("-", "-")
-      | some reg => (stringToHex reg.covert, stringToHex (proxyDial reg))
-    some (stringToHex r.out ++ "|" ++ showBool r.lookup ++ "|" ++ st ++ "|" ++ dial)
+    let (r, text) ← parseResolved res idx
+    some { ans := { providedIsIP := ← parseBool pip, split := sp, portOk := ← parseBool pok, hostIsIP := ← parseBool hip },
+           domainHits := ← parseBits dh, blockHits := ← parseBits bh, allowHits := ← parseBits ah, res := r, text := text }
+  | _ => none
+
+/-- environment and policy of a run: networks 0..nb-1 = blocklist, nb.. = allowlist; an "IP" is the index
+of the worker whose resolution produced it -/
+def mkEnv (ws : List WorkerIn) (ea : Bool) : Option (Env Nat Nat Nat × Policy Nat Nat) :=
+  match ws with
+  | [] => none
+  | w0 :: _ =>
+    let nb := w0.blockHits.length
+    let na := w0.allowHits.length
+    let nd := w0.domainHits.length
+    if ws.any (fun w => w.blockHits.length != nb || w.allowHits.length != na || w.domainHits.length != nd) then none else
+    let hostOf (w : WorkerIn) : String := match w.ans.split with | some (h, _) => h | none => ""
+    some ({ contains := fun n ip =>
+              match ws[ip]? with
+              | some w => if n < nb then w.blockHits.getD n false else w.allowHits.getD (n - nb) false
+              | none => false
+            matchString := fun p host =>
+              match ws.find? (fun w => hostOf w == host) with
+              | some w => w.domainHits.getD p false
+              | none => false
+            ipText := fun ip => match ws[ip]? with | some w => w.text | none => "" },
+          { block := List.range nb, allow := (List.range na).map (· + nb), enableAllow := ea, domains := List.range nd })
+
+def showStore (w : World) : String :=
+  match w.store with
+  | some e => (if e.valid then stringToHex (w.covertOf e.ptr) else "-") ++ "|" ++ showBool e.valid
+  | none => "-|0"
+
+def parseDigits (s : String) : Option (List Nat) :=
+  if s == "-" then some [] else s.toList.mapM fun c => if c.isDigit then some (c.toNat - '0'.toNat) else none
+
+def handle (args : List String) : Option String :=
+  match args with
+  | [ea, pip, split, dh, pok, hip, res, bh, ah, dup, dial, vis] => do
+    let w0 ← parseWorker 0 [pip, split, dh, pok, hip, res, bh, ah]
+    let (env, pol) ← mkEnv [w0] (← parseBool ea)
+    let visible ← parseBool vis
+    let dupN ← (if dup == "-" then some 0 else if dup == "D" then some 1 else none)
+    -- one resolver answer for every lookup: what the library answered for this host
+    let rs : Resolver Nat := fun _ => w0.res
+    let inp : Inputs := { ans := fun _ => w0.ans, passes := fun _ => true }
+    let r := parseOrResolve env pol w0.ans rs 0
+    let wA := runSched env pol inp rs (World.init (fun _ => "<provided>") 0) [0, 0, 0, 0]
+    let wB := if dupN == 1 then runSched env pol inp rs wA [1, 1, 1, 1] else wA
+    let lookups := if visible then wA.cursor else 0
+    let dialed ← (match wB.dialString with
+      | none => some "-"
+      | some s =>
+        if dial == "-" then some "-" else
+        match dial.splitOn "," with
+        | ["O", h, p, isIP] => do
+          let lit ← parseBool isIP
+          let host := h
+          let L : DialLib Nat := { splitHostPort := fun x => if x == s then some (host, p) else none,
+                                   parseIP := fun _ => if lit then some 0 else none }
+          -- at dial time the resolver answers something else: an error stands for "anything"
+          match (netDial L s (fun _ => .err) wB.cursor).1 with
+          | .literal _ port => some ("L," ++ host ++ "," ++ port)
+          | .resolved _ _ => some "R"
+          | .bad => some "B"
+        | _ => none)
+    some (stringToHex r.out ++ "|" ++ showBool r.lookup ++ "|" ++ toString lookups ++ "|" ++ showStore wB ++ "|" ++ dialed)
+  | _ => none
+
+def handleSched (args : List String) : Option String :=
+  match args with
+  | ea :: sched :: order :: rest => do
+    -- workers are introduced by a "W" field
+    let groups := (rest.splitBy (fun _ b => b != "W")).map (·.drop 1)
+    let ws ← (groups.zipIdx).mapM (fun (g, i) => parseWorker i g)
+    let (env, pol) ← mkEnv ws (← parseBool ea)
+    let sch ← parseDigits sched
+    let ord ← parseDigits order
+    if sch.any (· ≥ ws.length) || ord.any (· ≥ ws.length) then none else
+    let rs : Resolver Nat := fun n => match ord[n]? with
+      | some i => (match ws[i]? with | some w => w.res | none => .err)
+      | none => .err
+    let inp : Inputs := { ans := fun i => match ws[i]? with | some w => w.ans | none => ⟨true, none, false, false⟩,
+                          passes := fun _ => true }
+    let w := runSched env pol inp rs (World.init (fun i => "<raw " ++ toString i ++ ">") 0) sch
+    let ptr := match w.store with | some e => toString e.ptr | none => "-"
+    some (showStore w ++ "|" ++ ptr)
   | _ => none
 
 end CJ.Drv.Covert
